@@ -8,8 +8,8 @@ use std::mem::{drop as unlock, swap, take};
 use std::os::fd::{AsRawFd, OwnedFd, RawFd};
 use std::sync::Mutex;
 use std::sync::atomic::{AtomicU32, Ordering};
-use std::time::Duration;
-use std::{ptr, task};
+use std::time::{Duration, Instant};
+use std::{ptr, task, thread};
 
 use crate::{PollingState, asan, lock, syscall, try_lock};
 
@@ -243,6 +243,29 @@ impl Shared {
         }
     }
 
+    /// Wait until the kernel thread has consumed all queued submissions, or
+    /// `timeout` has elapsed.
+    ///
+    /// With a kernel thread `io_uring_enter(2)` doesn't submit anything, the
+    /// thread picks up the submissions in its own time. Anything still queued
+    /// when the ring is closed is never executed, so submissions that must
+    /// not be lost (e.g. the closing of fds) have to wait for the thread.
+    pub(crate) fn wait_for_kernel_thread(&self, timeout: Duration) {
+        let start = Instant::now();
+        while self.unsubmitted_submissions() != 0 {
+            // NOTE: this wakes the kernel thread if it went to sleep.
+            if let Err(err) = self.enter(0, libc::IORING_ENTER_SQ_WAIT, Some(Duration::ZERO)) {
+                log::warn!("error waiting for kernel thread to submit: {err}");
+                return;
+            }
+            if start.elapsed() >= timeout {
+                log::warn!("timed out waiting for kernel thread to submit");
+                return;
+            }
+            thread::yield_now();
+        }
+    }
+
     /// Returns the number of unsumitted submission queue entries.
     pub(crate) fn unsubmitted_submissions(&self) -> u32 {
         // NOTE: we MUST load the head before the tail to ensure the head is
@@ -267,12 +290,9 @@ impl Drop for Shared {
         // Submit anything that was queued after the `Ring` itself was dropped,
         // e.g. the closing of an `AsyncFd` that outlived it, nobody else will.
         if self.unsubmitted_submissions() != 0 {
-            let flags = if self.kernel_thread {
-                libc::IORING_ENTER_SQ_WAIT
-            } else {
-                0
-            };
-            if let Err(err) = self.enter(0, flags, Some(Duration::ZERO)) {
+            if self.kernel_thread {
+                self.wait_for_kernel_thread(Duration::from_secs(1));
+            } else if let Err(err) = self.enter(0, 0, Some(Duration::ZERO)) {
                 log::warn!("error flushing submissions: {err}");
             }
         }
